@@ -47,7 +47,10 @@ def slogdet_spd(M):
 
 
 def cond(M):
-    w = np.linalg.eigvalsh(0.5 * (A(M) + np.swapaxes(A(M), -1, -2)))
+    M = A(M)
+    if not np.all(np.isfinite(M)):
+        return np.full(M.shape[:-2], np.inf)
+    w = np.linalg.eigvalsh(0.5 * (M + np.swapaxes(M, -1, -2)))
     return np.max(np.abs(w), -1) / np.maximum(np.min(np.abs(w), -1), 1e-300)
 
 
